@@ -31,6 +31,7 @@ def gen(tier, seed):
         for seq in itertools.product(ALPHA, repeat=n):
             yield {'decls': None, 'flags': 0, 'texts': [[tok_of(s) for s in seq]], 'style': 'plain'}
     yield from handbuilt()
+    yield from handbuilt2()
     rng = core.seeded_rng(seed, 'c01')
     nrand = 60000 if tier == 'quick' else 600000
     for _ in range(nrand):
@@ -73,6 +74,18 @@ def handbuilt():
              D('hl', 'int', F_LIST | core.F_DEPRECATED | core.F_DROP, [1, 2]), D('gl', 'int', F_LIST | core.F_DEPRECATED, [1, 2])]
     for t1, t2 in (('a = 1 b = { p , q } c { x = 2 } c { xl += { 5 } } d t { } e { k = v k2 = w k = z }', 'd t { }'),
                    ('g = 1 h = 2 hl = { 9 } gl += { 3 }', 'b += r c { }'), ('d t { x = 2 } d u { } d T { }', 'd u { x = 3 }'), ('hl += 4 a = 0x10', 'gl = { }')):
+        for flags in (0, F_NOCASE):
+            yield {'decls': [d.to_json() for d in decls], 'flags': flags, 'texts': [T(t1), T(t2)], 'style': 'plain'}
+
+
+def handbuilt2():
+    """declarations no CFG_* macro produces: scalars whose default is given as text (def.parsed), empty text meaning 'no value'"""
+    def kinds(pfx):
+        return [D(pfx + 'i', 'int', default=7, dparsed=''), D(pfx + 's', 'str', default='x', dparsed=''), D(pfx + 'f', 'float', default=1.5, dparsed='2.5'),
+                D(pfx + 'b', 'bool', default=0, dparsed='yes'), D(pfx + 'n', 'int', default=7, dparsed='0x10'), D(pfx + 'q', 'str', default='a', dparsed='"quoted text"'),
+                D(pfx + 'w', 'str', default=None, dparsed='word'), D(pfx + 'e', 'float', default=3.0, dparsed='')]
+    decls = kinds('p') + [D('sec', 'sec', F_MULTI | F_TITLE, sub=kinds('x') + [D('in', 'sec', 0, sub=kinds('y'))]), D('one', 'sec', 0, sub=kinds('z'))]
+    for t1, t2 in (('pi = 3', 'sec a { } sec b { xi = 1 in { ye = 2 } }'), ('sec a { xs = v } one { zi = 4 zq = w }', 'sec a { } ps = again'), ('pq = r pf = 1', 'one { }')):
         for flags in (0, F_NOCASE):
             yield {'decls': [d.to_json() for d in decls], 'flags': flags, 'texts': [T(t1), T(t2)], 'style': 'plain'}
 
